@@ -71,3 +71,34 @@ def stored_status_in(ctx, p, base, allowed, before=None):
     """the path decided that the stored status of `base` lies within `allowed`"""
     pv = possible_variants(ctx, p, ("field", base, "status"), STATUS, before)
     return pv is not None and pv <= set(allowed)
+
+
+def marker_one_shot(p, item_excluded, pid, before=None):
+    """the path is made unrepeatable by a marker cell of its own: it decided some storage cell keyed by the proposal id absent and
+    saves it (a `closed` set), or decided it present and removes it (an escrow ledger consumed by the call) - the second call with
+    the same id fails that decision.  Returns the marker item or None."""
+    for c in p.conds:
+        if before is not None and c[3] > before:
+            continue
+        t, o = c[0], c[1]
+        item = key = present = None
+        if t[0] == "has" and isinstance(o, bool):
+            item, key, present = t[1], t[2], o
+        elif t[0] == "vfield" and t[2] == "Ok" and t[1][0] == "may_load" and o in ("Some", "None"):
+            item, key, present = t[1][1], t[1][2], o == "Some"
+        if item is None or item == item_excluded or key != pid:
+            continue
+        for e in p.effects:
+            if e.kind == "write" and e.item == item and e.key == pid and ((e.op == "remove") == present):
+                return item
+    return None
+
+
+def close_admission(ctx, p, base, item, pid, before=None):
+    """(stored status admits Close, how): the stored status is Pending / Open - writing Rejected then makes the call unrepeatable by
+    itself - or it may also be Rejected (a proposal voted down earlier) when a marker cell makes the call one-shot instead"""
+    if stored_status_in(ctx, p, base, ("Pending", "Open"), before=before):
+        return True, "status"
+    if stored_status_in(ctx, p, base, ("Pending", "Open", "Rejected"), before=before) and marker_one_shot(p, item, pid, before) is not None:
+        return True, "marker"
+    return False, None
